@@ -24,7 +24,7 @@ NAME = "io"
 PROPS = ("C20",)
 
 ENCODINGS = ["utf-8", "latin-1", "gbk", "utf-16"]
-RETURNS = ["none", "empty_list", "empty_tuple", "same", "new", "list2", "tuple3", "gen", "int", "obj", "str", "list_bad", "list1", "repeat2", "list_none"]
+RETURNS = ["none", "empty_list", "empty_tuple", "same", "new", "list2", "tuple3", "gen", "int", "obj", "str", "list_bad", "list1", "repeat2", "list_none", "buffer"]
 INVALID = {"int", "obj", "str", "list_bad", "list_none"}
 BLOCK_CLASSES = ["Entry", "String", "Preamble", "ExplicitComment", "ImplicitComment", "ParsingFailedBlock", "DuplicateBlockKeyBlock", "DuplicateFieldKeyBlock"]
 
@@ -119,6 +119,7 @@ class Protocol(mwbase.BlockMiddleware):
         self.returns = returns
         self.log = []      # (block, kind, returned objects or None if invalid)
         self.n = 0
+        self.buf = []      # kind "buffer": one list object, refilled for every block (a middleware reusing its output buffer)
 
     def _new(self):
         self.n += 1
@@ -148,6 +149,11 @@ class Protocol(mwbase.BlockMiddleware):
             exp = list(r)
         elif kind == "tuple3":
             r = (self._new(), block, self._new())
+            exp = list(r)
+        elif kind == "buffer":
+            self.buf.clear()
+            self.buf.extend([self._new(), block])
+            r = self.buf                  # the result is what the list holds when it is returned
             exp = list(r)
         elif kind == "gen":
             exp = [block, self._new()]
